@@ -91,9 +91,11 @@ func runC01(x *Ctx) {
 			subj := "call[" + dlgTok + "Subject](" + elem + ")"
 			aud := "call[" + dlgTok + "Audience](" + elem + ")"
 			iss := "call[" + dlgTok + "Issuer](" + elem + ")"
+			setCarriedScope(x, vp, l)
+			defer setCarriedScope(nil, nil, nil)
 			// every iteration: Subject(dlg) == recv.subject
 			x.mustBlock("C01.R4", "subject-guard:"+load.ShortName(vp), vp, l,
-				eqBetween(is(subj), is("recv.subject"), false), 2,
+				eqBetween(is(subj), loopInvariant("recv.subject"), false), 2,
 				"each iteration fails unless Subject(delegations[i]) == invocation subject (recv.subject exactly)")
 			// every iteration: Audience(dlg) == running issuer
 			x.mustBlock("C01.R4", "audience-guard:"+load.ShortName(vp), vp, l,
